@@ -136,6 +136,9 @@ def nontrivial(cfg, trace):
 
 def run(ctx):
     C.proof_step(ctx, ['engine.io generate_id() never repeats an id (12 random bytes + 24-bit counter)'])
+    # literals of the model tied to the source: refusal strings / keys, disconnect reasons (regenerated every run)
+    C.audit_extra(ctx, 'GlueServer', ['unable_to_connect', 'refused_error_args', 'server_disconnect_reason',
+                                'client_disconnect_reason'])
     S.run_cases(ctx, PROFILE, ctx.scale(150, 3000), 45, oracle=oracle, nontrivial=nontrivial, final_lose_all=True)
     ctx.coverage['rule'] = ('histories over CONNECT(ns, auth)/DISCONNECT/transport loss/disconnect()/broadcasts for several transports '
                             'and namespaces, handlers accepting / returning False / raising ConnectionRefusedError(0-3 args), '
